@@ -130,7 +130,7 @@ def correspond(ctx, scale=1, variants=None, use_oracle=False):
                     samples.append({"binding": b, "ops": ops, "block_sizes": [r.count(" ") for _, r, _ in ex if r.startswith("b ")]})
     return {"evaluations": evaluations, "distinct_nontrivial": len(sigs),
             "rule": "exhaustive starts 0..799 x 5 hint placements; full descents to 0 (and 4 calls beyond) from starts around the table edge and chunk seams; random backward histories with sieve sizes %s and hints inside/at/below the chunk; generate_prev_primes blocks up to 2^64 against an independent oracle. distinct = distinct (binding, build, transition kinds / sieve size, magnitude)" % SIEVE_SIZES,
-            "samples": samples, "mismatches": mismatches[:20], "distribution": dist, "variants": list(variants)}
+            "samples": samples, "mismatches": sorted(mismatches, key=lambda m: 0 if m.get("failing_input") else 1)[:20], "distribution": dist, "variants": list(variants)}
 
 
 def search(ctx, broken):
